@@ -20,6 +20,9 @@ CLAIMED = {
  "C04": dict(engine="davtree", design="5 C04",
    technique="CondOK truth table in the TLA+ DavTree spec judged by TLC on every (tree, conditional request) pair; TLC-simulated histories with announced entity tags threaded through the trace spec; helper/hand-over table judged by CondJudge",
    text="Exhaustive 6x6 If-Match x If-None-Match classes x {PUT, DELETE} x every path on every tree of the bounded instance (tags are real server announcements: current = announced since last write, stale = announced before a rewrite); histories validate that PUT/GET/HEAD/PROPFIND announce one and the same string for an unmodified resource; ConditionalMatch helpers and byte-for-byte hand-over to WebDAV/CalDAV/CardDAV backends over adversarial tag strings."),
+ "C05": dict(engine="davwire", design="5 C05",
+   technique="TLC-enumerated client-call cases (call x endpoint spelling x name form x options x backend) executed with the real webdav.Client against the real handler over LocalFileSystem and over an in-memory double; results and recorded backend calls judged by TLC against the backend's own records (got = want)",
+   text="1 030 cases per concretisation: Stat / ReadDir (flat, recursive) / Open / Create / Mkdir / RemoveAll / Copy / Move x endpoints {no path, /, /p, /p/, /p/q/} x absolute / relative names x option combinations x {LocalFileSystem, in-memory double with sizes up to 2^40, sub-second non-UTC times, MIME types with parameters, tags with quotes and non-ASCII}; every ReadDir entry re-addressed through the same client; names with spaces, %, #, ?, ;, +, quotes, XML metacharacters, non-ASCII. The escaping layers are exercised by sampling character classes, not by TLC."),
  "C06": dict(engine="filters", design="5 C06",
    technique="RFC 4791 9.7-9.9 transcribed as TLA+ operators (CalFilter); TLC checks their laws and enumerates the bounded universes; every case executed on the real caldav.Match/Filter; verdicts judged by TLC",
    text="Exhaustive over the bounded instance: every filter tree (depth <= 3; is-not-defined, text-match x negate, param-filters) x every calendar (quick 404 x 1057, thorough 12 692 x 1057 pairs); every relative placement incl. all equalities of range start/end vs DTSTART/DTEND on a six-point line for each of the five ways an event states its end, closed/open-ended/open-start ranges, three zones; recurring DAILY/WEEKLY x COUNT 1-4 x three durations x 104 ranges; property time ranges. Filter judged as the order-preserving matching subsequence; arguments compared before/after."),
@@ -39,12 +42,18 @@ CLAIMED = {
  "C09": dict(engine="wire", design="5 C09",
    technique="RFC 6352 request grammar as a TLA+ module over abstract XML (CardWire); same construction as C08; enumeration values exhaustively including unset and invalid ones",
    text="Every addressbook-query / multiget of the bounded universe (12k quick, 170k thorough: test at both levels x match type x negate x is-not-defined x param-filters x limit x selection, each enumeration incl. unset and an invalid token) in both directions, 4 lexical styles, several token concretisations; invalid enumeration values must be refused (client error or 4xx without backend call), never guessed; 27 kinds of documents outside the RFC must be refused."),
+ "C10": dict(engine="davwire", design="5 C10",
+   technique="TLC-enumerated backend contents and exchange kinds; real clients <-> real handlers <-> backend doubles in process; server multiget answers read by an independent parser; conformant multi-status documents in 7 layouts from an independent writer fed to the real clients; judged by TLC (got = want)",
+   text="4 340 cases per concretisation: discovery of 0-2 collections (name, description, size limit, supported component set), objects via GET / multiget / query (path, tag, time to the second, payload equality of escaped / folded / multi-valued / non-ASCII iCalendar and vCard), multiget href lists with per-href outcome ok/404/403/500 (each href once, in order, with the backend's own status), PUT (backend receives an equal object, client gets the backend's path / tag / time), independent-writer documents (split propstats, unknown extras, 404 propstats, misleading prefixes, whitespace, CDATA) incl. sync-collection. Fidelity of go-ical / go-vcard themselves is outside go-webdav."),
  "C11": dict(engine="hier", design="5 C11",
    technique="Scope and per-property accounting rules as TLA+ operators (Hier: Scope, PropNameOK, AllPropOK, PropOK; laws of Scope checked by TLC); TLC-enumerated PROPFIND cases executed on the real WebDAV / CalDAV / CardDAV handlers and ServePrincipal; answers parsed by a strict reader and judged by TLC",
    text="Every (server, resource at every level incl. root, Depth absent/0/1/infinity, requested-name sequence with duplicates, unknown DAV: and foreign-namespace names, layout with 0-2 collections x 0-2 objects) case: the propname, allprop, prop, empty-body and no-form answers of one resource form one mini-trace whose availability set TLC infers from propname; every response exactly one href, scope exactly Hier.Scope, each distinct requested name exactly once (200 if available, empty 404 otherwise), allprop = all available names with 200, empty body = allprop, no form = 400, status 207, well-formed namespace-correct XML."),
  "C12": dict(engine="hier", design="5 C12, App. B",
    technique="routing relation as TLA+ operator Hier.RouteOK over (method, level below the prefix); TLC-enumerated requests under 0-3 segment prefixes executed on the real handlers with recording backends; real clients run the discovery chain over a real HTTP server; judged by TLC",
    text="Every (CalDAV|CardDAV, prefix of 0-2 (thorough 3) segments, with/without trailing slash, path of level 0-5 on the current user's chain and on foreign chains, request trailing slash, method, PROPFIND Depth) request: the backend operation of that level must be invoked with the request path byte for byte, MKCOL only at collection level else 403 without create call, foreign principal / home-set PROPFIND exposes no href of the current user; the clients' discovery chain from the mount root and via the well-known redirect returns exactly the backend's principal, home set, collections and objects for every prefix x layout; three segment concretisations incl. segments equal to or anagrams of the prefix's and names needing escaping."),
+ "C14": dict(engine="davwire", design="5 C14",
+   technique="client outcome classification as TLA+ operator DavWire.ClientOutcomeOK; TLC enumerates (method, status, content type, body class, failure placement) cases; real clients driven with a scripted HTTPClient; observations judged by TLC",
+   text="All 23 public client methods of the three packages x status codes (35 representative in quick, all of 100-599 in thorough) x 6 content types x 7 body classes (valid, empty, wrong root, truncated at a varying offset, garbage, HTML, DAV:error) plus per-response / per-propstat failure placements inside valid multi-status documents: error iff not 2xx / not 207 where required / body not interpretable / a failing response or propstat (a 404 response of sync-collection is a deletion; an optional property under 404 is absent, not an error); the error carries the status code and the DAV:error condition; no panic, no hang (10 s watchdog), no data with an error."),
  "C17": dict(engine="davtree", design="5 C17",
    technique="leak bit recorded on every event of the DavTree universes, required FALSE by the TLC judge",
    text="Every response (headers and body) of every (tree, request) pair, body fault and conditional request is scanned for the absolute path of the sandbox (and its symlink-resolved form); the specification's responses carry no such datum, so any occurrence is a reject."),
@@ -91,6 +100,9 @@ m = {
   {"name": "hier", "path": "spec/Hier.tla spec/HierGen.tla spec/HierJudge.tla harness/cmd/hierrec harness/backends lib/checks_hier.py",
    "serves_properties": ["C11", "C12"],
    "kind_free_text": "hierarchy / routing / scope / accounting rules as TLA+ operators; TLC enumerates requests; real handlers with recording backends and real clients; TLC judge"},
+  {"name": "davwire", "path": "spec/DavWire.tla spec/DavWireGen.tla spec/C14Judge.tla spec/C10Gen.tla spec/C10Judge.tla spec/C05Gen.tla spec/C05Judge.tla harness/cmd/clirec lib/checks_davwire.py lib/checks_c10.py lib/checks_c05.py",
+   "serves_properties": ["C05", "C10", "C14"],
+   "kind_free_text": "client-side relations in TLA+; TLC enumerates cases and judges observations of the real clients against backend doubles, scripted transports and independent-writer documents"},
   {"name": "davtree", "path": "spec/DavTree.tla spec/DavTreeMC.tla spec/DavSim.tla spec/DavJudge.tla harness/cmd/davrec lib/checks_dav.py",
    "serves_properties": ["C01", "C02", "C03", "C04", "C17"],
    "kind_free_text": "TLA+ resource-tree specification; TLC model check + case generation; Go recorder on the real webdav.Handler; TLC trace-validation judge"},
